@@ -32,7 +32,9 @@ type ClusterState struct {
 	GW     atomic.Int64
 	// Serialize makes the nodes execute one request at a time cluster-wide (lock Big, taken after the node's own
 	// lock), so that OnRoute may change topology and move keys between nodes atomically and ESeq is a total order
-	Serialize   bool
+	Serialize bool
+	// ExecRecheck: EXEC judges the ownership of every queued command again (as Redis does)
+	ExecRecheck bool
 	Big         sync.Mutex
 	ESeq        atomic.Int64
 	GCrashAfter atomic.Int64
@@ -203,6 +205,15 @@ func DefaultKeys(name string, a [][]byte) [][]byte {
 	return nil
 }
 
+// routeQuiet is route without counting the request or firing OnRoute (the second look at EXEC)
+func (cs *ClusterState) routeQuiet(s *Server, c *conn, name string, args [][]byte) interface{} {
+	ks := cs.keys(name, args)
+	if len(ks) == 0 {
+		return nil
+	}
+	return cs.decide(s, c, ks)
+}
+
 // route decides whether this node serves the request (nil) or answers with a
 // redirection / error.
 func (cs *ClusterState) route(s *Server, c *conn, name string, args [][]byte) interface{} {
@@ -214,6 +225,10 @@ func (cs *ClusterState) route(s *Server, c *conn, name string, args [][]byte) in
 	if cs.OnRoute != nil {
 		cs.OnRoute(cs, cs.routed)
 	}
+	return cs.decide(s, c, ks)
+}
+
+func (cs *ClusterState) decide(s *Server, c *conn, ks [][]byte) interface{} {
 	slot := HashSlot(ks[0])
 	for _, k := range ks[1:] {
 		if HashSlot(k) != slot {
